@@ -5,6 +5,7 @@ package harness
 import (
 	"crypto/sha256"
 	"encoding/hex"
+	"encoding/json"
 	"fmt"
 	"math/rand"
 	"sort"
@@ -906,6 +907,97 @@ func (o c14Obs) coq() string {
 	}
 	return fmt.Sprintf("HO %s %s %s %s %s %s %s %s %s %s %s %s %s %s %s %s %s %s", coqBool(o.ok), coqList(a), coqList(b), coqList(c), coqList(d), coqList(f), coqList(g), coqList(h),
 		c14ZLL(o.lAS), c14ZLL(o.lSS), c14ZLL(o.lASP), c14ZLL(o.lCS), c14ZLL(o.lAC), c14ZLL(o.lSess), c14ZLL(o.lRec), c14ZLL(o.lRSpec), coqList(lc), coqList(o.lLocSc))
+}
+
+// ---------------------------------------------------------------- letter case of the text form
+
+// c14CaseStream: every address kind rendered by String(), then read back in lower case, in upper
+// case (a legal bech32 spelling) and in mixed case (illegal) through every way the module reads a
+// metadata address from text.
+func c14CaseStream(t *testing.T, w *CaseWriter, r *rand.Rand) {
+	read := func(text string) []string {
+		var out []string
+		ok, bz := c14MA(func() (mdtypes.MetadataAddress, error) { return mdtypes.MetadataAddressFromBech32(text) })
+		out = append(out, c14OB(ok, bz))
+		ok, bz = c14MA(func() (mdtypes.MetadataAddress, error) {
+			ma, _, err := mdtypes.ParseMetadataAddressFromBech32(text)
+			return ma, err
+		})
+		out = append(out, c14OB(ok, bz))
+		js, _ := json.Marshal(text)
+		ok, bz = c14MA(func() (mdtypes.MetadataAddress, error) {
+			var ma mdtypes.MetadataAddress
+			err := ma.UnmarshalJSON(js)
+			return ma, err
+		})
+		out = append(out, c14OB(ok, bz))
+		ok, bz = c14MA(func() (mdtypes.MetadataAddress, error) {
+			var ma mdtypes.MetadataAddress
+			err := ma.UnmarshalYAML([]byte(text))
+			return ma, err
+		})
+		out = append(out, c14OB(ok, bz))
+		return out
+	}
+	mixed := func(lower string) string {
+		b := []byte(lower)
+		var letters []int
+		for i, c := range b {
+			if c >= 'a' && c <= 'z' {
+				letters = append(letters, i)
+			}
+		}
+		// some but not all letters in upper case
+		k := 1 + r.Intn(len(letters)-1)
+		for _, j := range r.Perm(len(letters))[:k] {
+			b[letters[j]] -= 32
+		}
+		return string(b)
+	}
+	for i := 0; i < scale(150, 3600); i++ {
+		u1, u2 := c14UUID(r), c14UUID(r)
+		var ma mdtypes.MetadataAddress
+		switch i % 6 {
+		case 0:
+			ma = mdtypes.ScopeMetadataAddress(u1)
+		case 1:
+			ma = mdtypes.SessionMetadataAddress(u1, u2)
+		case 2:
+			ma = mdtypes.RecordMetadataAddress(u1, "rec"+c14Name(r))
+		case 3:
+			ma = mdtypes.ContractSpecMetadataAddress(u1)
+		case 4:
+			ma = mdtypes.ScopeSpecMetadataAddress(u1)
+		default:
+			ma = mdtypes.RecordSpecMetadataAddress(u1, "rec"+c14Name(r))
+		}
+		lo := ma.String()
+		up := strings.ToUpper(lo)
+		mx := mixed(lo)
+		texts := []string{lo, up, mx}
+		sess := []string{"None", "None", "None"}
+		v := []string{}
+		if ma.IsScopeAddress() {
+			for k, text := range texts {
+				comp := &mdtypes.SessionIdComponents{ScopeIdentifier: &mdtypes.SessionIdComponents_ScopeAddr{ScopeAddr: text}, SessionUuid: u2.String()}
+				ok, bz := c14MA(comp.GetSessionAddr)
+				sess[k] = c14OB(ok, bz)
+				msg := mdtypes.MsgAddNetAssetValuesRequest{ScopeId: text, Signers: []string{addrN(1400).String()},
+					NetAssetValues: []mdtypes.NetAssetValue{mdtypes.NewNetAssetValue(sdk.NewInt64Coin(mdtypes.UsdDenom, 5), 1)}}
+				v = append(v, coqBool(try(msg.ValidateBasic) == nil))
+			}
+			w.Count("acase_scope")
+		}
+		rl, ru, rm := read(lo), read(up), read(mx)
+		w.Add(fmt.Sprintf("ACase %s %s %s %s %s %s %s %s %s %s %s %s", c14B(ma), c14S(lo), c14S(up), c14S(mx), coqList(rl), coqList(ru), coqList(rm),
+			c14B(u2[:]), sess[0], sess[1], sess[2], coqList(v)),
+			map[string]any{"kind": "text_case", "lower": lo, "upper": up, "mixed": mx})
+		w.Count("acase")
+		if ru[0] != "None" {
+			w.Count("acase_upper_parsed")
+			w.Nontrivial("cs:" + lo)
+		}
+	}
 }
 
 // ---------------------------------------------------------------- UTF-8 name stream
@@ -1986,6 +2078,7 @@ func TestC14(t *testing.T) {
 	r := newRand("C14")
 	c14AddressStream(t, w, r)
 	c14NameStream(t, w, r)
+	c14CaseStream(t, w, r)
 	c14HistoryStream(t, w, r)
 	w.Flush(t)
 }
